@@ -4,7 +4,7 @@
    its affine column j is  spacing_j * unit_j. *)
 From Coq Require Import String ZArith List Bool QArith.
 From HD Require Import Base.Val Base.PySlice C09_Model C09_Proofs C09_Proofs_Match C09_Proofs_Voxels C09_Proofs_Sound
-  C09_Proofs_Index C09_Proofs_Dtype.
+  C09_Proofs_Index C09_Proofs_Dtype C09_Proofs_Float.
 Import ListNotations.
 Open Scope Z_scope.
 
@@ -508,3 +508,83 @@ Proof.
   constructor; [|constructor]. unfold vfits, zfits. vm_compute. repeat split; discriminate.
 Qed.
 Print Assumptions C09_v2v_dtype_example.
+
+(* ===================================================================================================== *)
+(* 18. index arrays of REDUCED floating point precision (float16 / float32).  fl_round p q = the nearest number
+       m * 2^e with |m| < 2^p, ties to even (np.astype(float16 / float32) with p = 11 / 24; exponent range not
+       modelled); v2v_fp = the transformer with that cast modelled faithfully (applied in the un-rounded branch
+       only, bounds check on the returned values).
+       (a) fl_round is a rounding: relative error <= 2^-p, identity on every representable number;
+       (b) ROUNDED: the precision of the input never enters - same result for float16 / float32 / float64, equal
+           to the dtype-free mapping, hence agreeing with the route through physical space;
+       (c) UN-ROUNDED: for every non-float dtype and float64 the dtype-free mapping; for float16 / float32 every
+           returned coordinate is the physical route's coordinate rounded to the format (within |x| / 2^p);
+       (d) witnesses that "cast to the input precision, THEN round" names another voxel / leaves the array. *)
+Theorem C09_fl_round_rel_err : forall p q, (Qabs' (fl_round p q - q) * pow2 p <= Qabs' q)%Q.
+Proof. exact fl_round_rel_err. Qed.
+Print Assumptions C09_fl_round_rel_err.
+
+Theorem C09_fl_round_representable : forall p m e, Z.abs m < 2 ^ p -> 0 <= p ->
+  (fl_round p (inject_Z m * pow2 e) == inject_Z m * pow2 e)%Q.
+Proof. exact fl_round_representable. Qed.
+Print Assumptions C09_fl_round_representable.
+
+Theorem C09_v2v_fp_rounded_exact : forall dt A B shape check pts,
+  Forall (vfits (round_width dt)) (map (phys (v2v_aff A B)) pts) ->
+  v2v_fp dt A B shape true check pts = v2v A B shape true check pts.
+Proof. exact v2v_fp_rounded_exact. Qed.
+Print Assumptions C09_v2v_fp_rounded_exact.
+
+Theorem C09_v2v_fp_rounded_width_irrelevant : forall w w' A B shape check pts,
+  v2v_fp (DFloat w) A B shape true check pts = v2v_fp (DFloat w') A B shape true check pts.
+Proof. exact v2v_fp_rounded_width_irrelevant. Qed.
+Print Assumptions C09_v2v_fp_rounded_width_irrelevant.
+
+Theorem C09_v2v_fp_rounded_agrees_with_physical_route : forall dt A B shape check pts, ~ (det B == 0)%Q ->
+  Forall (vfits (round_width dt)) (map (phys (v2v_aff A B)) pts) ->
+  (forall l, v2v_fp dt A B shape true check pts = Ok l -> ref2idx B shape true check (idx2ref A pts) = Ok l) /\
+  (forall e, ref2idx B shape true check (idx2ref A pts) = Err e ->
+             exists e', v2v_fp dt A B shape true check pts = Err e').
+Proof. exact v2v_fp_rounded_agrees_with_physical_route. Qed.
+Print Assumptions C09_v2v_fp_rounded_agrees_with_physical_route.
+
+Theorem C09_v2v_fp_unrounded_full_precision : forall dt A B shape check pts, is_lowprec dt = false ->
+  v2v_fp dt A B shape false check pts = v2v A B shape false check pts.
+Proof. exact v2v_fp_unrounded_full_precision. Qed.
+Print Assumptions C09_v2v_fp_unrounded_full_precision.
+
+Theorem C09_v2v_fp_unrounded_values : forall w A B shape pts l,
+  v2v A B shape false false pts = Ok l ->
+  v2v_fp (DFloat w) A B shape false false pts = Ok (map (to_float_fp w) l).
+Proof. exact v2v_fp_unrounded_values. Qed.
+Print Assumptions C09_v2v_fp_unrounded_values.
+
+Theorem C09_v2v_fp_unrounded_close_to_physical_route : forall w A B shape pts l, ~ (det B == 0)%Q ->
+  v2v_fp (DFloat w) A B shape false false pts = Ok l ->
+  exists l', ref2idx B shape false false (idx2ref A pts) = Ok l' /\
+             exists l0, Forall2 veq l0 l' /\ Forall2 (vrel_close (fbits w)) l l0.
+Proof. exact v2v_fp_unrounded_close_to_physical_route. Qed.
+Print Assumptions C09_v2v_fp_unrounded_close_to_physical_route.
+
+(* the order the code must not use: float32 65601.497 -> 65601.5 -> 65602, 65600.503 -> 65600.5 -> 65600;
+   float16 512.7 -> 512.5 -> 512, 715.3 -> 715.5 -> 716 (outside an axis of 716 voxels) *)
+Example C09_cast_then_round_differs :
+  rne (65601497 # 1000) = 65601 /\ cast_then_round W32 (65601497 # 1000) = 65602 /\
+  rne (65600503 # 1000) = 65601 /\ cast_then_round W32 (65600503 # 1000) = 65600 /\
+  rne (5127 # 10) = 513 /\ cast_then_round W16 (5127 # 10) = 512 /\
+  rne (7153 # 10) = 715 /\ cast_then_round W16 (7153 # 10) = 716.
+Proof. exact cast_then_round_differs. Qed.
+Print Assumptions C09_cast_then_round_differs.
+
+(* non-vacuity: a float point 4100 on a pyramid level, base level 16 x finer and shifted by 1.497 px: the rounded
+   mapping names voxel 65601 for every float width (hypotheses of (b) hold), the un-rounded float32 mapping
+   returns 65601.5 = the float32 nearest to 65601.497 *)
+Example C09_v2v_fp_example :
+  ~ (det fp_B == 0)%Q /\
+  Forall (vfits W64) (map (phys (v2v_aff fp_A fp_B)) [V3 4100 0 0]) /\
+  (forall w, exists l, v2v_fp (DFloat w) fp_A fp_B (T3 131072 1 1) true true [V3 4100 0 0] = Ok l /\
+                       Forall2 veq l [V3 65601 0 0]) /\
+  exists l, v2v_fp (DFloat W32) fp_A fp_B (T3 131072 1 1) false true [V3 4100 0 0] = Ok l /\
+            Forall2 veq l [V3 (131203 # 2) 0 0].
+Proof. exact fp_example. Qed.
+Print Assumptions C09_v2v_fp_example.
